@@ -63,6 +63,13 @@ def run():
     # null-pointer calls: every history of length <= 3 over insertions and null calls, extended by one insertion of each class
     hs += [''.join(t) + tail for k in (1, 2, 3) for t in itertools.product('AFMSP' + NULLS, repeat=k) if set(t) & set(NULLS) for tail in 'AFMSP']
     rc1, out_i, err_i = vlib.run_lines(impl, hs)
+    # QSet<HandlerType> iteration order depends on Qt's per-process hash seed: the lists must not
+    hash_seed_diffs = []
+    for hseed in ('0', '2', '3', '7'):
+        rch, out_h, _ = vlib.run_lines(impl, hs[:4000], env={'QT_HASH_SEED': hseed})
+        for h, a, b in zip(hs, out_i, out_h):
+            if a != b:
+                hash_seed_diffs.append((hseed, h, b))
     rc2, out_m, _ = vlib.run_lines(model, hs)
     rc3, out_s, _ = vlib.run_lines(model, hs, ['spec'])
     if rc1 != 0 or len(out_i) != len(hs):
@@ -100,6 +107,23 @@ def run():
         h = min(dis_spec, key=len)
         chk.fail('handler list differs from the specified list (handler lost or duplicated) after history %r' % h,
                  {'history': h, 'kind': 'content'}, kind='content')
+    if hash_seed_diffs and not falsified:
+        hseed, h, outb = min(hash_seed_diffs, key=lambda x: len(x[1]))
+        _, vv, _ = vlib.run_lines(model, [outb], ['oracle'])
+        if vv and '0' in vv[0]:
+            small = h
+            def bad_seeded(hist, hseed=hseed):
+                hh = ''.join(hist)
+                if not hh: return False
+                _, o, _ = vlib.run_lines(impl, [hh], env={'QT_HASH_SEED': hseed})
+                _, v, _ = vlib.run_lines(model, o, ['oracle'])
+                return bool(v) and '0' in v[0]
+            small = ''.join(vlib.shrink_list(list(h), bad_seeded))
+            _, o, _ = vlib.run_lines(impl, [small], env={'QT_HASH_SEED': hseed})
+            chk.fail('with QT_HASH_SEED=%s the handler list violates class order / stability after history %r' % (hseed, small),
+                     {'history': small, 'QT_HASH_SEED': hseed, 'implementation_lists_after_each_call': o[0] if o else None, 'kind': 'order'}, kind='order')
+        else:
+            chk.broke('the handler list depends on the process hash seed (QT_HASH_SEED=%s) for history %r' % (hseed, h), {'kind': 'hash-seed', 'history': h})
     if dis_model:
         h = min(dis_model, key=len)
         chk.broke('correspondence: model (with the translated configuration) and SortedPipeline differ on %d histories, e.g. %r' % (len(dis_model), h),
@@ -110,7 +134,7 @@ def run():
                             'history of length <= %d; non-trivial = inserts at least two different classes' % ex_len,
                     'exhaustive_up_to_length': ex_len, 'distinct': distinct,
                     'disagreements_model_vs_impl': len(dis_model), 'oracle_evaluated_on_impl_lists': sum(len(v) for v in verdicts),
-                    'oracle_falsified_histories': len(falsified), 'impl_vs_spec_differences': len(dis_spec),
+                    'oracle_falsified_histories': len(falsified), 'hash_seeds_tried': [0, 2, 3, 7], 'hash_seed_dependent_histories': len(hash_seed_diffs), 'impl_vs_spec_differences': len(dis_spec),
                     'length_histogram': {str(k): sum(1 for h in hs if len(h) // 10 == k) for k in range(0, 5)}})
     chk.samples = [{'history': hs[i], 'impl': out_i[i][-120:], 'model': out_m[i][-120:]} for i in (0, 121, len(hs) // 2)]
     return chk.finish()
